@@ -422,24 +422,27 @@ def f1_variant(rng, ns="fv"):
 
 # ----------------------------------------------------------------------------- JSON default filling
 
-def ext_cycle_nodes(ins):
-    """type ids on a cycle of bare struct fields / tuple elements none of which is under a LOCAL mask.
-    The generated JSON reader fills an absent member with defaults by calling the member's reader with
-    no input: local masks are then 0 (field absent), external / constant masks keep their value, nothing
-    is consumed -- so such a cycle makes the default filling recurse forever, whatever precedes the
-    recursive field (a consuming field in front of it saves the TL1 reader, not the JSON reader)."""
+def default_cycle_nodes(ins):
+    """type ids whose DEFAULT value is infinite: a cycle through struct fields that are not under a
+    LOCAL mask (bare or boxed), first union variants and tuple elements.
+    The generated JSON reader fills an absent member -- and the TL2 reader an absent field / a variant
+    without body -- with defaults by calling the member's reader / Reset with no input: local masks are
+    then 0 (field absent), external and constant masks keep their value, unions take variant 0, nothing
+    is consumed.  On such a cycle the default filling recurses forever, whatever precedes the recursive
+    field (a consuming field in front of it saves the TL1 reader, not the JSON / TL2 readers)."""
     g = {}
     for x in ins:
         out = []
         if x["kind"] == "struct":
             for f in x["fields"]:
                 m = f.get("mask")
-                if nc(ins, f["type"], f["bare"]) and not (m is not None and m["kind"] == "field"):
+                if not (m is not None and m["kind"] == "field"):
                     out.append(f["type"])
+        elif x["kind"] == "union":
+            if x.get("variants"):
+                out.append(x["variants"][0])
         elif x["kind"] == "array" and x.get("isTuple"):
-            f = x["elem"]
-            if nc(ins, f["type"], f["bare"]):
-                out.append(f["type"])
+            out.append(x["elem"]["type"])
         g[x["id"]] = out
     on_cycle = set()
     for start in g:
